@@ -5,7 +5,7 @@ CONSTANTS
   Fds = {1, 2, 3}
   MaxConn = 3
   Rogue = {}
-  Programs = {1, 2, 3, 4, 6}
+  Programs = {1, 2, 3, 4, 6, 9}
   SndCap = 100000
   EventsCap = 5
   LimitN = 20
